@@ -299,6 +299,23 @@ def run(res, tier, seed, widen=1):
     descs = [P.gen_desc(rng) for _ in range((400 if tier == "quick" else 8000) * widen)]
     for i in range(0, len(descs), 500):
         _encoded(res, descs[i:i + 500], "spec_encoded")
+    # the model of int(text, 16) against the built-in, directly (in the library it only ever sees text that str.strip() has been
+    # through; on its own int() skips C white space only - not 0x1C..0x1F): every 7-bit character before / after / inside a
+    # number, and random texts over the grammar's alphabet
+    itexts = []
+    for core in ("1F", "0x1f", "a_b", "-0X_92e5"):
+        for c in range(128):
+            ch = chr(c)
+            itexts += [ch + core, core + ch, ch + core + ch] + [core[:i] + ch + core[i:] for i in range(1, len(core))]
+    alphabet = "0123456789abcdefABCDEFxX+-_ \t\n\x0b\x0c\r\x1c\x1d\x1e\x1f\x00g"
+    for _ in range((400 if tier == "quick" else 20000) * widen):
+        itexts.append("".join(rng.choice(alphabet) for _ in range(rng.randint(1, 7))))
+    for t, a in zip(itexts, lib.drive([f"py.int16 {lib.hexs(t.encode('ascii'))}" for t in itexts])):
+        res.evaluations += 1
+        i = int16_text_render(t)
+        if i != a:
+            res.tie_break({"op": "py.int16", "hex": t.encode("ascii").hex()}, i, a, "int16_text")
+        res.count("int16_text_accepted" if i != "ValueError" else "int16_text_rejected")
     if tier == "thorough":
         # all 65536 checksum values on 4 readouts
         for _ in range(4):
@@ -308,11 +325,24 @@ def run(res, tier, seed, widen=1):
         res.extra["exhaustive_checksum_field"] = "all 65536 four-hex-digit checksum values on 4 readouts"
 
 
+def int16_text_render(t: str) -> str:
+    try:
+        return str(int(t, 16))
+    except ValueError:
+        return "ValueError"
+
+
 def search(res, tier, seed):
     run(res, "quick", seed + 7919, widen=3)
 
 
 def replay(payload, res):
+    if payload["case"].get("op") == "py.int16":
+        t = bytes.fromhex(payload["case"]["hex"]).decode("ascii")
+        i, a = int16_text_render(t), lib.drive([f"py.int16 {payload['case']['hex']}"])[0]
+        print("int(%r, 16): impl %s model %s" % (t, i, a))
+        print("REPLAY", "passes" if i == a else "fails")
+        return 0 if i == a else 1
     if payload["case"].get("op") == "p1.reader":
         from han.dlde import ModeDReader
         r = ModeDReader()
